@@ -5,7 +5,7 @@ import re
 
 from vlib import docs as D
 from vlib import gt
-from vlib.par import pmap
+from vlib.par import pmap, timeout_failure
 
 PROPERTY = 'C06'
 LEVEL = 'other'
@@ -166,7 +166,7 @@ def bounded(tier, seed, repo_root):
         for b in base:
             for o in gt.OPTION_COMBOS[::3]:
                 jobs.append((a, b, o, False))
-    fails = [f for fs in pmap(_job, jobs, repo_root) for f in fs]
+    fails = [f for fs in pmap(_job, jobs, repo_root, job_timeout=60, on_timeout=timeout_failure('C06')) for f in fs]
     return [{
         'name': 'C06.monitoring-printer', 'bound': f"JSON documents <= {3 if tier == 'quick' else 4} nodes over {atoms!r} "
         f"({'all' if exhaustive else 'seeded sample of'} {len(pairs)} pairs; options and join layout cycling) + {len(base)}^2 structured pairs",
